@@ -158,6 +158,15 @@ fn gen_dyn_set(rng: &mut Rng) -> Vec<((i32, i32), String)> {
             0 | 1 => format!("=SEQUENCE({},{})", rng.range(1, 4), rng.range(1, 3)),
             2 | 3 => format!("=SEQUENCE(A{})", rng.range(1, 4)),
             4 => format!("=A1:A{}*2", rng.range(2, 4)),
+            5 | 6 | 7 if !anchors.is_empty() && rng.chance(1, 2) => {
+                // the size depends on an aggregate over a small area next to / under another anchor
+                let k = anchors[rng.below(anchors.len() as u64) as usize];
+                let (r1, c1) = (k.0 - rng.range(0, 2) as i32, k.1 - rng.range(0, 1) as i32);
+                let (r1, c1) = (r1.max(1), c1.max(2));
+                let (r2, c2) = (r1 + rng.range(0, 2) as i32, c1 + rng.range(0, 2) as i32);
+                let agg = ["SUM", "COUNT", "MAX"][rng.below(3) as usize];
+                format!("=SEQUENCE({agg}({}:{}))", a1(r1, c1), a1(r2, c2))
+            }
             5 if !anchors.is_empty() => {
                 let k = anchors[rng.below(anchors.len() as u64) as usize];
                 format!("=SORT({}#)", a1(k.0, k.1))
@@ -308,6 +317,13 @@ fn gen_dyn(ctx: &Ctx, sink: &mut dyn FnMut(String)) {
     for _ in 0..count {
         let mut r = rng.fork();
         let cells = gen_dyn_set(&mut r);
+        let enc: Vec<String> = cells.iter().map(|((r, c), t)| format!("{r}.{c}.{}", hex(t))).collect();
+        sink(format!("c07 dyn {k}.{} {}", r.next() % 1_000_000, enc.join("|")));
+    }
+    // sizes / values that depend on an aggregate over a range another array spills into at its edge
+    for _ in 0..count / 2 {
+        let mut r = rng.fork();
+        let (cells, _) = crate::suites::c31::gen_agg_set(&mut r);
         let enc: Vec<String> = cells.iter().map(|((r, c), t)| format!("{r}.{c}.{}", hex(t))).collect();
         sink(format!("c07 dyn {k}.{} {}", r.next() % 1_000_000, enc.join("|")));
     }
